@@ -86,8 +86,10 @@ class Profile:
             if d['nq'] > 0 and not P.forbid_seq and d['rt']:
                 while hi == 0:
                     lo, hi = rnd.choice(P.bounds)
-            if P.allow_bad_bounds and d['rt'] and rnd.random() < 0.04:
+            if P.allow_bad_bounds and d['rtk'] == 1 and rnd.random() < 0.04:
                 lo, hi = 2, 1
+            if d['rtk'] == 2 and hi == INF:       # RT_TIMES(n): exactly n, a finite n
+                hi = max(lo, 1)
             q = rnd.sample(sorted(L.seqs), d['nq']) + [0, 0]
             p = (rnd.choice(P.terms), rnd.choice(P.terms))
             w = tuple(rnd.choice(P.terms) if rnd.random() < 0.6 else (0, 0) for _ in range(3))
@@ -98,7 +100,7 @@ class Profile:
                 nm_ = rnd.choice(sorted(L.mocks))
                 nest = (nm_, 1 if nm_ in (NM_ID, WM_ID) else rnd.choice([1, 1, 4]), rnd.choice(P.args), 0)
             add(expect_line(s, sh, m, p, w, se, 100 * s + rnd.randint(0, 9), lo, hi, (q[0], q[1]), nest))
-            if not (d['rt'] and lo > hi):
+            if not (d['rtk'] == 1 and lo > hi):
                 L.slots[s] = sh
         elif k == 'scope':          # a scoped macro form: REQUIRE_CALL / ALLOW_CALL / FORBID_CALL (and _V): lifetime = the block
             free = [s for s in range(1, P.nslot + 1) if s not in L.slots]
@@ -212,8 +214,8 @@ class Profile:
         else:
             raise ValueError(k)
 
-SIMPLE = [1, 2, 3, 9, 10, 12, 13, 22, 23, 24, 30, 32, 33, 40, 42, 43, 50, 52, 53, 60, 61, 62, 63, 64, 65, 66, 67, 68]
-SEQSH = [5, 6, 7, 8, 11, 25, 26, 27, 34, 44, 54, 56, 69]
+SIMPLE = [1, 2, 3, 9, 10, 12, 13, 22, 23, 24, 30, 32, 33, 40, 42, 43, 50, 52, 53, 60, 61, 62, 63, 64, 65, 66, 67, 68, 120, 122, 123]
+SEQSH = [5, 6, 7, 8, 11, 25, 26, 27, 34, 44, 54, 56, 69, 121, 124, 125]
 
 PROFILES = {
     'lifecycle': Profile('lifecycle', SIMPLE,
@@ -223,10 +225,10 @@ PROFILES = {
                        dict(mock=1, seq=2, expect=10, call=6, call_live=16, release=2, mmock=0.5), nmock=2, nseq=2,
                        args=(0, 1), terms=[(0, 0), (1, 0), (1, 1), (2, 0)], prelude=('mock', 'seq', 'seq'),
                        bounds=((1, 1), (0, 1), (1, 2), (2, 2), (0, INF), (1, INF), (2, 3))),
-    'bounds': Profile('bounds', [2, 3, 17, 18, 19, 20, 9, 12, 14, 23, 1, 50],
+    'bounds': Profile('bounds', [2, 3, 17, 18, 19, 20, 9, 12, 14, 23, 1, 50, 120, 122, 123, 120],
                       dict(mock=0.5, expect=6, call=4, call_live=20, release=2), nmock=1, bounds=tuple(BOUNDS_ALL),
                       args=(0, 1), terms=[(0, 0), (1, 0), (1, 1)], prelude=('mock',), seglen=(10, 36)),
-    'teardown': Profile('teardown', [2, 3, 5, 30, 40, 50, 9, 12, 17, 19],
+    'teardown': Profile('teardown', [2, 3, 5, 30, 40, 50, 9, 12, 17, 19, 120, 121],
                         dict(mock=2, seq=0.5, expect=8, call=3, call_live=6, release=6, dmock=4, mmock=3, scope=3, endscope=3), nmock=3, nseq=1,
                         prelude=('mock', 'seq')),
     'sequences': Profile('sequences', SEQSH + [2, 9],
@@ -498,7 +500,11 @@ def exhaustive_bounds():
                 ops = ['mock 0']
                 if ctx == 'fallback':
                     ops.append(expect_line(2, 9, 0, retv=200))                       # older ALLOW_CALL takes the overflow
-                ops.append(expect_line(1, 2, 0, retv=100, lo=L, hi=H))
+                # the bounds through every form of RT_TIMES that can express them
+                form = 2
+                if ctx == 'alone':
+                    form = 120 if (L == H and H != INF) else 122 if H == INF else 123 if L == 0 else 2
+                ops.append(expect_line(1, form, 0, retv=100, lo=L, hi=H))
                 if ctx == 'ontop':
                     ops.append(expect_line(3, 2, 0, retv=300, lo=1, hi=1))           # newer REQUIRE takes the first call
                 ops += ['call 0 1 0 0'] * (ncalls + (1 if ctx == 'ontop' else 0))
